@@ -405,6 +405,13 @@ func (cc *Session) handleResponseError(err interface{}) error {
 
 func (cc *Session) writeResponse(r Response) error {
 	defer func() {
+		if pc := cc.continueConn; pc != nil && (pc.MoreRowsExist() || pc.MoreResultsExist()) {
+			// the response was given up (row limit, client gone, conversion error) with packets of the
+			// result unread: the connection cannot carry another statement. Recycle closes such a
+			// connection, but a connection pinned by a transaction or by keep-session is not recycled
+			// and the next statement would read the old rows as its own answer.
+			pc.Close()
+		}
 		cc.executor.recycleContinueConn(cc.continueConn)
 		cc.continueConn = nil
 	}()
